@@ -1,0 +1,78 @@
+//go:build verif
+// +build verif
+
+package service
+
+// Hooks for model-based verification. Everything in this file and every call of
+// verifYield / verifEvent only exists in builds with the tag "verif"; without the
+// tag the functions are empty (verif_off.go) and the calls are compiled away.
+
+import (
+	"net"
+	"sync/atomic"
+)
+
+// VerifYieldFn, when set, is called at the yield points of the ring buffer and of
+// the service (site names are listed next to the calls). It may block: a replayer
+// uses it as a scheduler gate. obj is the buffer id or the service id.
+var VerifYieldFn func(obj int64, site string)
+
+// VerifEventFn, when set, receives the events emitted at linearization points.
+// seq is a process-wide sequence number taken inside the critical section.
+var VerifEventFn func(seq uint64, ev string, svc uint64, a, b, c int64, s string)
+
+var verifSeq uint64
+
+func verifYield(bf *buffer, site string) {
+	if f := VerifYieldFn; f != nil && bf != nil {
+		f(bf.id, site)
+	}
+}
+
+func verifSvcYield(svc *service, site string) {
+	if f := VerifYieldFn; f != nil {
+		f(-int64(svc.id), site)
+	}
+}
+
+func verifEvent(ev string, svc *service, a, b, c int64, s string) {
+	if f := VerifEventFn; f != nil {
+		id := uint64(0)
+		if svc != nil {
+			id = svc.id
+		}
+		f(atomic.AddUint64(&verifSeq, 1), ev, id, a, b, c, s)
+	}
+}
+
+// VerifBuffer exports the ring buffer type (its methods are already exported).
+type VerifBuffer = buffer
+
+// VerifNewBuffer creates a ring buffer exactly as service.start does.
+func VerifNewBuffer(size int64) (*VerifBuffer, error) { return newBuffer(size) }
+
+// VerifLocksFree reports, by TryLock probes, whether the two internal mutexes are free.
+func (bf *buffer) VerifLocksFree() (pfree, cfree bool) {
+	if bf.pcond.L.(interface{ TryLock() bool }).TryLock() {
+		pfree = true
+		bf.pcond.L.Unlock()
+	}
+	if bf.ccond.L.(interface{ TryLock() bool }).TryLock() {
+		cfree = true
+		bf.ccond.L.Unlock()
+	}
+	return
+}
+
+// VerifCursors returns the producer and consumer cursors.
+func (bf *buffer) VerifCursors() (p, c int64) { return bf.pseq.get(), bf.cseq.get() }
+
+// VerifServe runs the normal server-side connection handling on a caller-supplied
+// connection, exactly as the accept loop of ListenAndServe does.
+func VerifServe(svr *Server, conn net.Conn) error {
+	if err := svr.checkConfiguration(); err != nil {
+		return err
+	}
+	go svr.handleConnection(conn)
+	return nil
+}
